@@ -36,6 +36,7 @@ type Cfg struct {
 	Chain      bool     `json:"chain"` // the bounce pipeline routes into a second real queue
 	ErrText    string   `json:"errtext"` // "", "multiline", "nonascii": text of the scripted SMTP errors
 	Idn        bool     `json:"idn"`     // recipients live in an internationalized domain
+	Fwd        string   `json:"fwd"`     // variant (b): "" = target.smtp/target.lmtp, "remote" = the real remote-MX target
 }
 
 type Step struct {
